@@ -86,6 +86,7 @@ type Config struct {
 	Trace             bool
 	SymbolicNanos     bool
 	Bounds            map[string]int
+	CallDepthCrash int // > 0: nesting deeper than this is the stack overflow of the target (a crash), not an engine bound
 	SyncFiles         []string // files under test whose lock acquisitions are scheduling points of the thread layer
 }
 
